@@ -102,7 +102,8 @@ PairClause(st, e, exp, got) ==
 
 PairsClause(st, e) ==
   IF Bad(Len(e.pairs) # Len(st.ph.pairs), "C06_PairsInDatagramOrder") THEN "C06_PairsInDatagramOrder"
-  ELSE LET bad == {k \in 1..Len(e.pairs) : PairClause(st, e, st.ph.pairs[k], e.pairs[k]) # ""} IN
+  ELSE LET n == IF Len(e.pairs) < Len(st.ph.pairs) THEN Len(e.pairs) ELSE Len(st.ph.pairs)   \* the length clause may belong to another check
+           bad == {k \in 1..n : PairClause(st, e, st.ph.pairs[k], e.pairs[k]) # ""} IN
        IF bad = {} THEN ""
        ELSE PairClause(st, e, st.ph.pairs[CHOOSE k \in bad : \A j \in bad : k <= j],
                        e.pairs[CHOOSE k \in bad : \A j \in bad : k <= j])
